@@ -230,8 +230,14 @@ def _run_pda(case, out):
     from pyformlang.pda import PDA, Epsilon
     from gens.pda import extract
     st, sy, sk = case["states"], case["syms"], case["stack"]
-    pda = PDA(start_state=st[case["start"]], start_stack_symbol=sk[case["z0"]],
-              final_states={st[i] for i in case["finals"]}, **({"states": set(st)} if case.get("declare") else {}))
+    if case.get("declare") is False and len(case["trans"]) % 2:
+        # final marks set one by one through add_final_state instead of the constructor
+        pda = PDA(start_state=st[case["start"]], start_stack_symbol=sk[case["z0"]])
+        for i in case["finals"]:
+            pda.add_final_state(st[i])
+    else:
+        pda = PDA(start_state=st[case["start"]], start_stack_symbol=sk[case["z0"]],
+                  final_states={st[i] for i in case["finals"]}, **({"states": set(st)} if case.get("declare") else {}))
     for p, a, x, q, g in case["trans"]:
         pda.add_transition(st[p], "epsilon" if a is None else sy[a], sk[x], st[q], [sk[i] for i in g])
 
